@@ -28,6 +28,7 @@ type Violation struct {
 	Case   interface{} `json:"case,omitempty"`
 	Stack  string      `json:"stack,omitempty"`
 	Replay string      `json:"replay_path,omitempty"`
+	Env    string      `json:"environment,omitempty"` // process-wide setting in force when the case ran (replay restores it)
 }
 
 // ShardResult is what one child process reports.
@@ -58,6 +59,15 @@ type Recorder struct {
 	curPhase int
 	curIndex int
 	dir      string
+	env      string
+}
+
+// SetEnv names the process-wide setting now in force; it is stamped on later violations (and on the message, so
+// that the key and the first line tell the reader).
+func (r *Recorder) SetEnv(s string) {
+	r.mu.Lock()
+	r.env = s
+	r.mu.Unlock()
 }
 
 // NewRecorder makes a recorder for one shard.
@@ -169,7 +179,10 @@ func (r *Recorder) ViolateStack(key, msg string, c interface{}, stack string) {
 		r.res.Counters["violations_dropped"]++
 		return
 	}
-	v := Violation{Prop: r.res.Prop, Key: key, Msg: msg, Tier: r.Tier, Seed: r.Seed, Phase: r.curPhase, Index: r.curIndex, Case: c, Stack: stack}
+	v := Violation{Prop: r.res.Prop, Key: key, Msg: msg, Tier: r.Tier, Seed: r.Seed, Phase: r.curPhase, Index: r.curIndex, Case: c, Stack: stack, Env: r.env}
+	if r.env != "" {
+		v.Msg += " [" + r.env + "]"
+	}
 	v.Replay = r.writeReplay(&v)
 	r.res.Violations = append(r.res.Violations, v)
 }
